@@ -152,8 +152,8 @@ func resolveRolesG(a *A, rule string, groups string) *Roles {
 				r.Begin = an
 			}
 		}
-		if !a.need(r.Commit != nil, rule, "commit closure (closure of the parser that calls the handler)") ||
-			!a.need(r.Begin != nil, rule, "begin closure (niladic closure of the parser)") {
+		// the begin closure is optional: its two statements may be written out in the BEGIN arm instead
+		if !a.need(r.Commit != nil, rule, "commit closure (closure of the parser that calls the handler)") {
 			return nil
 		}
 		instrs(r.Parser, func(in ssa.Instruction) {
@@ -167,7 +167,7 @@ func resolveRolesG(a *A, rule string, groups string) *Roles {
 				}
 			}
 		})
-		if !a.need(r.CommitMC != nil && r.BeginMC != nil, rule, "closure construction sites") {
+		if !a.need(r.CommitMC != nil && (r.BeginMC != nil || r.Begin == nil), rule, "closure construction sites") {
 			return nil
 		}
 		// cells captured by the commit closure, by type
